@@ -451,11 +451,15 @@ def analyse(n, kf, img, out):
         if not ondisk:
             failed.add('ondisk')
             continue
-        k0 = img[e['start']]['key']
-        foreign = [c['s'] for c in ch if img[c['s']]['key'] != k0]
+        k0 = e['key']
+
+        def carries(s):
+            v = img[s]
+            return v['key'] == k0 or (s == e['start'] and v['first'] == s and v['mok'] and v['mkey'] == k0)
+        foreign = [c['s'] for c in ch if not carries(c['s'])]
         if foreign:
             shapes.add('foreign-slot')
-            same = [s for s in foreign if kf[img[s]['key'] - 1] % n == kf[k0 - 1] % n]
+            same = [s for s in foreign if k0 >= 1 and kf[img[s]['key'] - 1] % n == kf[k0 - 1] % n]
             cls['foreign_anchor'] = 'same' if same else 'other'
         if img[e['start']]['first'] != e['start']:
             shapes.add('orphan-tail')
